@@ -20,6 +20,13 @@ GEN_DIR = os.path.join(VERIF, "lean", "VelaVerif", "Gen")
 
 
 def main():
+    """A plug-in that fails (the code no longer has the shape it reads) must not take the other tables down with it:
+    its files are left as they are (the last successfully generated, committed version), the failure is recorded in
+    Gen/.status.json, and harness/common.py lean_stage turns it into a failed obligation of exactly those checks whose
+    property modules import one of the plug-in's files."""
+    import json
+    import traceback
+
     repo = os.environ.get("VERIF_REPO", "/repo")
     sys.path.insert(0, repo)
     sys.path.insert(0, HERE)
@@ -28,11 +35,25 @@ def main():
     names = sorted(f[:-3] for f in os.listdir(tables_dir) if f.endswith(".py") and not f.startswith("_"))
     only = sys.argv[1:]
     changed = []
+    map_path = os.path.join(tables_dir, "_outputs.json")
+    try:
+        outputs = json.load(open(map_path))
+    except Exception:
+        outputs = {}
+    failed = {}
     for name in names:
         if only and name not in only:
             continue
-        mod = importlib.import_module("tables." + name)
-        for rel, text in mod.emit(repo).items():
+        try:
+            mod = importlib.import_module("tables." + name)
+            emitted = mod.emit(repo)
+        except Exception as e:  # noqa: B902  any failure of a plug-in is a finding about the source it reads, reported per plug-in
+            failed[name] = {"error": (type(e).__name__ + ": " + str(e))[:400], "files": outputs.get(name, []),
+                            "traceback_tail": traceback.format_exc()[-1200:]}
+            continue
+        if sorted(emitted) != outputs.get(name):
+            outputs[name] = sorted(emitted)
+        for rel, text in emitted.items():
             path = os.path.join(GEN_DIR, rel)
             old = None
             if os.path.exists(path):
@@ -42,6 +63,17 @@ def main():
                 with open(path, "w") as f:
                     f.write(text)
                 changed.append(rel)
+    try:
+        old_map = json.load(open(map_path))
+    except Exception:
+        old_map = None
+    if old_map != outputs and not only:
+        with open(map_path, "w") as f:
+            json.dump(outputs, f, indent=1, sort_keys=True)
+    with open(os.path.join(GEN_DIR, ".status.json"), "w") as f:
+        json.dump({"repo": repo, "failed": failed}, f, indent=1)
+    for name, info in failed.items():
+        print(f"gen_tables: FAILED {name}: {info['error']} (files kept: {','.join(info['files']) or '?'})")
     print("gen_tables: changed=" + ",".join(changed) if changed else "gen_tables: unchanged")
 
 
